@@ -12,10 +12,25 @@ def parseStep (s : String) : Option (Step Nat) :=
   | ["q", n] => some (.placeholder n)                       -- a boolean scalar placeholder
   | ["gw", args] =>                                         -- `ndx.where(c, x, y)`: both constant-condition shortcuts
       (parseNatList args).map (fun a => Step.guarded "Where" a 0 (fun v => if v ≠ 0 then some 1 else some 2))
+  | ["ga", args] =>                                         -- `ndx.logical_and(x, y)` on boolean scalars: both shortcuts
+      (parseNatList args).bind (fun l => match l with
+        | [a, b] => some (Step.guarded2 "And" a b (fun v => v != 0) (fun v => v != 0))
+        | _ => none)
+  | ["go", args] =>                                         -- `ndx.logical_or(x, y)`
+      (parseNatList args).bind (fun l => match l with
+        | [a, b] => some (Step.guarded2 "Or" a b (fun v => v == 0) (fun v => v == 0))
+        | _ => none)
   | ["f", op, args] => (parseNatList args).map (Step.prim op)
   | ["c", r] => r.toNat?.map Step.copy
   | ["s", d, src] => do let d ← d.toNat?; let s ← src.toNat?; some (.set d s)
   | _ => none
+
+/-- Operator semantics of the driver: only the truth value of `And` / `Or` results is ever inspected (as the guard of a
+later shortcut); every other operator's value is irrelevant for the reported flags. -/
+def drvSem : String → List Nat → Option Nat
+  | "And", vs => some (if vs.all (· != 0) then 1 else 0)
+  | "Or", vs => some (if vs.any (· != 0) then 1 else 0)
+  | _, _ => some 0
 
 /-- `heap <ort:0|1> <step>*` → per cell `v`/`-` (reports a value?) and `c`/`n` (is a Constant?),
 or `err` when the history raises (a reference to a cell that does not exist). -/
@@ -24,7 +39,7 @@ def cmdHeap (args : List String) : String :=
   | o :: ss =>
     match ss.mapM parseStep with
     | some steps =>
-      match run (fun _ _ => some 0) (o == "1") steps [] with
+      match run drvSem (o == "1") steps [] with
       | some h => "ok " ++ showList (h.map (fun c =>
           (if c.eager.isSome then "v" else "-") ++ (if c.var.isConst then "c" else "n")))
       | none => "err"
